@@ -26,7 +26,8 @@ REQUIRED = ["iff_checked:plurality", "iff_checked:approval", "iff_checked:superm
             "margin_checked:contest_level_call_with_confirmed_assertions", "assertions_built_by_make_all_assertions",
             "candidate_names_contained_in_one_another", "contest_carries_a_reported_tally_when_assertions_are_made",
             "tally_taken_together_with_a_contest_of_another_n_winners", "ballots_in_pooled_batches_with_batch_means_set",
-            "margin_checked:sub_collection", "contest_identifier_assigned_after_assertions_were_made", "marks_held_in_a_dict_subclass", "vote_bearing_records_flagged_phantom", "contests_of_more_than_65536_ballots"]
+            "margin_checked:sub_collection", "contest_identifier_assigned_after_assertions_were_made", "marks_held_in_a_dict_subclass", "vote_bearing_records_flagged_phantom", "contests_of_more_than_65536_ballots",
+            "margin_from_tally_asked_while_the_test_holds_the_comparison_bound"]
 ASSUMPTIONS = ["shares f in {1/2,1/4,1/8} (f and 1/(2f) both dyadic) are exact in binary; inexact shares (2/3, 0.6) are only evaluated at a "
                "distance from the threshold that rounding cannot bridge", "a mark for a name that is not on the contest's "
                "candidate list (write-in) appears only on ballots with no mark for a listed candidate, so that no "
@@ -90,6 +91,7 @@ def gen_profile(rng, kind, stratum):
         prof["cards_first"] = nb + rng.choice((1, 3, nb))
     prof["via_make_all"] = rng.random() < 0.4
     prof["flagged"] = rng.random() < 0.1
+    prof["test_holds_comparison_bound"] = rng.random() < 0.2
     if rng.random() < 0.12:
         # the marks of a ballot held in a mapping that is a dict but not exactly a dict (json with object_pairs_hook, counters)
         prof["marks_container"] = rng.choice(("OrderedDict", "defaultdict", "Counter"))
@@ -395,6 +397,11 @@ def run_case(prof, rec):
             if not applicable:
                 return
             for name, a in asns.items():
+                if prof.get("test_holds_comparison_bound") and a.margin is not None and a.margin == a.margin and a.margin < 2 * a.assorter.upper_bound:
+                    # the margin was taken from the CVRs first (comparison audit): that route installs the comparison bound
+                    # 2/(2 - v/u) in the test object; the margin from the tally is a property of the tally all the same
+                    a.test.u = 2 / (2 - a.margin / a.assorter.upper_bound)
+                    rec.count("margin_from_tally_asked_while_the_test_holds_the_comparison_bound")
                 ok, _ = rec.guard(f"c02.call:find_margin_from_tally:{kind}", a.find_margin_from_tally, tally)
                 if not ok:
                     return
